@@ -1,6 +1,7 @@
 package verifsim
 
 import (
+	"bytes"
 	"encoding/json"
 	"fmt"
 	"os"
@@ -99,6 +100,27 @@ func LoadCorpus(repo string) (*Corpus, error) {
 			c.Valid = append(c.Valid, d)
 			if d.Kind == "invoice" {
 				c.Invoices = append(c.Invoices, d)
+			}
+		}
+	}
+	// synthetic variants: members of the document model that no shipped example
+	// exercises (floating point coordinates with negative and near-ULP values)
+	if base := c.byName["examples/es/invoice-es-es"]; base != nil && base.Err == "" {
+		if v, err := ParseJV(base.Src); err == nil {
+			root := v
+			if root.Get("doc") != nil {
+				root = root.Get("doc")
+			}
+			if sup := root.Get("supplier"); sup != nil && sup.Get("addresses") != nil && len(sup.Get("addresses").A) > 0 {
+				sup.Get("addresses").A[0].Set("coords", &JV{K: 'o', M: []JM{{"lat", &JV{K: 'n', S: "40.416775"}}, {"lon", &JV{K: 'n', S: "-3.70379"}}}})
+				d := &Doc{Name: "synthetic/es-invoice-coordinates", Src: v.Encode(nil), IsEnv: base.IsEnv}
+				buildDoc(d, len(c.Docs))
+				if d.Err == "" && bytes.Contains(d.Env, []byte("40.416775")) {
+					c.Docs = append(c.Docs, d)
+					c.byName[d.Name] = d
+					c.Valid = append(c.Valid, d)
+					c.Invoices = append(c.Invoices, d)
+				}
 			}
 		}
 	}
